@@ -161,7 +161,7 @@ bool Component::doAddComponent(const ComponentPtr &component)
     auto newParent = shared_from_this();
     bool hasParent = component->hasParent();
     if (hasParent) {
-        if (hasAncestor(component)) {
+        if ((newParent == component) || hasAncestor(component)) {
             return false;
         }
         auto parent = component->parent();
